@@ -157,6 +157,13 @@ Definition get_tok (t : N) (l : list tlids) : tlids :=
 (* TokenLIDs.GetLIDs: the queue is merged into the sorted list (order is not observable here) *)
 Definition merge_tok (x : tlids) : tlids := mkTl (tl_tok x) (tl_sorted x ++ tl_queue x) [].
 
+(* NOT the code, kept for documentation (`_v0` style): GetLIDs with the queue detached BEFORE the merge mutex is taken,
+   i.e. two steps per caller - detach the queue; later lock, merge what was detached, publish, return the sorted list.
+   Props.C07_getlids_split_v0_refuted shows why the detach must stay inside the mutex (merge_tok = one step). *)
+Definition getlids_detach (x : tlids) : tlids * list nat := (mkTl (tl_tok x) (tl_sorted x) [], tl_queue x).
+Definition getlids_publish (x : tlids) (held : list nat) : tlids * list nat :=
+  let y := mkTl (tl_tok x) (tl_sorted x ++ held) (tl_queue x) in (y, tl_sorted y).
+
 (* LIDs of the collector's documents that carry token t (GroupLIDsByToken) *)
 Fixpoint group_lids (t : N) (ds : list doc) (lids : list nat) : list nat :=
   match ds, lids with
